@@ -6,6 +6,7 @@ import (
 	"fmt"
 	"os"
 	"path/filepath"
+	"sort"
 	"strings"
 	"syscall"
 	"testing"
@@ -97,11 +98,13 @@ type ADiskFault struct {
 	Action string `json:"action"` // short | err | shorterr | kill | shortkill
 	Bytes  int    `json:"bytes,omitempty"`
 	Errno  string `json:"errno,omitempty"`
+	Sticky bool   `json:"sticky,omitempty"` // a full disk stays full: every later write to a chunk file in that generation fails too (nothing written)
 }
 
 // AScenario is one world-A run
 type AScenario struct {
 	Profile       string       `json:"profile"`
+	PlantDamaged  bool         `json:"plant_damaged_files,omitempty"`               // before the last generation starts, a zero-length file with a valid chunk name and a stray temporary file appear in a queue directory
 	DiskFaults    []ADiskFault `json:"disk_faults,omitempty"`                       // faults on chunk files; a kill ends the agent process, which is then started again
 	Keys          []string     `json:"keys"`                                        // orchestration key fields
 	MetricKeys    []string     `json:"metric_keys,omitempty"`                       // metricKeys of the configuration (default: host)
@@ -953,15 +956,17 @@ func (w *worldA) tweak(r *simrt.Rand, s *AScenario, end int) {
 			s.Upstream = append(s.Upstream, AUp{Kind: "never_ack"}, AUp{Kind: "refuse"})
 		}
 		s.HealAtMs = end + r.Intn(20000)
+		s.PlantDamaged = r.Bool(25)
 		kinds := []string{"write", "write", "write", "create", "close", "rename", "open", "read", "unlink"}
 		for i, n := 0, 1+r.Intn(3); i < n; i++ {
-			f := ADiskFault{Gen: 1 + r.Intn(3), OpKind: kinds[r.Intn(len(kinds))], Nth: r.Intn(6)}
+			f := ADiskFault{Gen: []int{1, 1, 1, 2, 2, 3}[r.Intn(6)], OpKind: kinds[r.Intn(len(kinds))], Nth: r.Intn(6)}
 			if r.Bool(35) {
 				f.Nth = r.Intn(25)
 			}
 			if f.OpKind == "write" {
-				f.Action = []string{"short", "err", "kill", "shortkill", "shorterr"}[r.Intn(5)]
-				f.Bytes = []int{0, 1, 7, 60, 250, 1000}[r.Intn(6)]
+				f.Action = []string{"short", "err", "kill", "shortkill", "shorterr", "shorterr"}[r.Intn(6)]
+				f.Bytes = []int{0, 1, 7, 60, 150, 250, 1000}[r.Intn(7)]
+				f.Sticky = f.Action == "shorterr" && r.Bool(50)
 			} else {
 				f.Action = []string{"err", "kill"}[r.Intn(2)]
 			}
@@ -1053,6 +1058,11 @@ func (w *worldA) Shrink(sc any) []any {
 	for i := range s.Events {
 		c := clone()
 		c.Events = append(c.Events[:i], c.Events[i+1:]...)
+		out = append(out, c)
+	}
+	if s.PlantDamaged {
+		c := clone()
+		c.PlantDamaged = false
 		out = append(out, c)
 	}
 	if len(s.DiskFaults) > 1 {
@@ -1187,7 +1197,8 @@ type aRun struct {
 	killedGen            int            // generation whose process was killed by a disk fault and has not been started again yet
 	kills                int            // processes killed so far
 	diskOpCount          map[string]int // "<generation>/<kind>" -> chunk-file operations seen
-	noMoreDiskFaults     bool           // the fault-free tail has begun
+	stickyErr            map[int]syscall.Errno
+	noMoreDiskFaults     bool // the fault-free tail has begun
 	filesAtLastStart     map[string][]byte
 	notDrained           bool
 	reloads              []string // variants delivered
@@ -1250,6 +1261,9 @@ func (w *worldA) Run(t *testing.T, profile string, sc any, cfg simrt.Config) *Ou
 	}
 	out.Res = simrt.Run(t, cfg, r.drive)
 	out.Log = r.logbuf.String()
+	if os.Getenv("VERIF_DUMP_LOG") != "" {
+		fmt.Fprintln(os.Stderr, out.Log) // (development aid)
+	}
 	simsync.Mode = simsync.PoolLIFO
 	simsync.OnPut = nil
 	r.evaluate(out)
@@ -1470,6 +1484,10 @@ func (r *aRun) diskFaultHook(op simfs.Op) simfs.Action {
 	key := fmt.Sprintf("%d/%s", op.Gen, op.Kind)
 	n := r.diskOpCount[key]
 	r.diskOpCount[key] = n + 1
+	if e := r.stickyErr[op.Gen]; e != 0 && op.Kind == "write" {
+		r.out.fault("write_error_on_a_disk_that_stays_full", 1)
+		return simfs.Action{Err: e}
+	}
 	for _, f := range r.s.DiskFaults {
 		if f.Gen != op.Gen || f.OpKind != op.Kind || f.Nth != n {
 			continue
@@ -1486,6 +1504,9 @@ func (r *aRun) diskFaultHook(op simfs.Op) simfs.Action {
 			a.ShortSet, a.Short = true, min(f.Bytes, op.Len)
 			a.Err = errnoOf(f.Errno)
 			r.out.fault("write_partial_then_error", 1)
+			if f.Sticky {
+				r.stickyErr[op.Gen] = a.Err
+			}
 		case "kill":
 			a.Kill = true
 			if op.Kind == "write" {
@@ -1580,6 +1601,7 @@ func (r *aRun) drive() {
 	}
 	if len(s.DiskFaults) > 0 {
 		r.diskOpCount = map[string]int{}
+		r.stickyErr = map[int]syscall.Errno{}
 		r.fs.Hook = r.diskFaultHook
 		r.fs.OnKill = func(gen int) {
 			r.killedGen = gen
@@ -1669,8 +1691,10 @@ func (r *aRun) drive() {
 		}
 	}
 	for pending > 0 {
-		if r.reviveIfKilled(); r.out.Harness != "" {
+		if revived := r.reviveIfKilled(); r.out.Harness != "" {
 			return
+		} else if revived {
+			continue // (time has passed meanwhile: look at the clients again before waiting)
 		}
 		waitEv("a.driver.clients", r.ev, -1)
 	}
@@ -1687,6 +1711,14 @@ func (r *aRun) drive() {
 			return
 		}
 		simrt.Sleep("a.driver.restart", 100*time.Millisecond)
+		if dirs := r.fs.Dirs(aBufRoot); s.PlantDamaged && len(dirs) > 0 {
+			// what a crash of an older, non-atomic writer or an operator's mistake leaves behind: never forwarded, and it does
+			// not block the chunks around it (the empty one sorts before every real chunk)
+			sort.Strings(dirs)
+			r.fs.PutFile(aBufRoot+"/"+dirs[0]+"/0000000000000000001-00000000.ff", nil)
+			r.fs.PutFile(aBufRoot+"/"+dirs[0]+"/0946684800000000001-00000000.ff.tmp", []byte("\x93\xa5stray"))
+			r.out.fault("planted_zero_length_and_temporary_file", 1)
+		}
 		r.filesAtLastStart = r.fs.Files(aBufRoot)
 		if !r.startAgent() {
 			return
